@@ -15,7 +15,10 @@
      compose_map2 + dg_lxor/dg_lor/dg_land    digit-wise xor / or / and                          (hex.xor/or/and, bit.xor)
      compose_not                              digit-wise complement                                   (hex.not, bit.not)
      value_inc, value_dec, compose_inc/dec    increment / decrement with the early exit                (hex.inc, hex.dec)
-     cmp_lex_correct, compose_cmp             lexicographic comparison from the most significant digit        (hex.cmp)
+     cmp_lex_correct, compose_cmp             lexicographic comparison from the most significant digit (hex.cmp, bit.cmp)
+     value_zero, compose_if                   zero test of a whole vector, leaves at the first non-zero digit (hex/bit.if, if0, if1)
+     binc_rel, compose_binc                   increment whose carry is a cell; a step that finds it clear leaves       (bit.inc)
+     compose_map22, compose_map1              digit-wise with two outputs / constant (hex/bit.xor_zero, bit.swap, hex/bit.zero)
    The only computations are the boolean checks in the hypotheses; their finite domains are stated there.
    The *_inst corollaries name every derived quantity so that a generated instance matches them syntactically. *)
 From FJ Require Import Lib.Base Spec.MachineSpec Spec.StlSpec Model.StlRun Model.StlDigit
